@@ -41,7 +41,7 @@ func runC06(c *eng.Ctx, thorough bool) {
 			// the rollback closure: the deferred closure that reads the named error result
 			reads := false
 			for _, fv := range fn.FreeVars {
-				if fv.Name() == "retErr" {
+				if eng.VarName(fv) == "retErr" {
 					reads = true
 				}
 			}
@@ -139,7 +139,7 @@ func runC06(c *eng.Ctx, thorough bool) {
 				if ifi == nil {
 					continue
 				}
-				if phi, ok := ifi.Cond.(*ssa.Phi); ok && phi.Comment == "registerLease" {
+				if phi, ok := ifi.Cond.(*ssa.Phi); ok && eng.VarName(phi) == "registerLease" {
 					nTests++
 					testPos = ifi.Pos()
 					blocked = append(blocked, eng.Edge{From: b, Succ: 1})
